@@ -424,6 +424,25 @@ def run_unit(unit):
                 got = pa.data[f'{(fx, fy)}'][f'{0.5876}']
                 same(part, 'pupil-aberration', 'PupilAberration', condp, dict(det0, field=[fx, fy], axis='x'), got['x'], ex, tol=1e-7)
                 same(part, 'pupil-aberration', 'PupilAberration', condp, dict(det0, field=[fx, fy], axis='y'), got['y'], ey, tol=1e-7)
+        # ---------------- pupil aberration of the same finite-object lens described with angular fields -----------------------------
+        if not math.isinf(obj) and pa is not None and not has_mirror:
+            sp_fa = dict(sp, ftype='angle', fields=[[0.0, 0.0, 0.0], [0.7 * p['ang'], 0.0, 0.0], [p['ang'], 0.0, 0.0]])
+            o_fa = LZ.build(sp_fa)
+            part.states += 1
+            condfa = 'object=finite,field=angle'
+            pa3 = guarded(part, 'pupil-aberration', 'PupilAberration', condfa, det0,
+                          lambda: AN.PupilAberration(o_fa, fields='all', wavelengths=[0.5876], num_points=npp))
+            part.transitions += 1
+            part.evals += 1
+            if pa3 is not None:
+                for (fx, fy) in [tuple(float(q) for q in fc_) for fc_ in o_fa.fields.get_field_coords()]:
+                    o_fa.trace(fx, fy, 0.5876, npp, 'line_x')
+                    rx = np.asarray(o_fa.surface_group.x[sidx], float).copy()
+                    o_fa.trace(fx, fy, 0.5876, npp, 'line_y')
+                    ry = np.asarray(o_fa.surface_group.y[sidx], float).copy()
+                    got = pa3.data[f'{(fx, fy)}'][f'{0.5876}']
+                    same(part, 'pupil-aberration', 'PupilAberration', condfa, dict(det0, field=[fx, fy], axis='x'), got['x'], (Pys * dstop - rx) / dstop * 100, tol=1e-7)
+                    same(part, 'pupil-aberration', 'PupilAberration', condfa, dict(det0, field=[fx, fy], axis='y'), got['y'], (Pys * dstop - ry) / dstop * 100, tol=1e-7)
         # ---------------- pupil aberration with a clipping aperture in front of the stop: each fan masked by ITS OWN vignetting
         if unit['stop'] >= 1 and not has_mirror:
             ka = 1                                   # surface carrying the aperture (in front of the stop)
